@@ -18,7 +18,7 @@ SPEC_FORMS = {"old", "forall", "exists", "implies", "result", "unfold", "iff", "
               "count", "raised", "fresh_const", "pw2", "cls_name", "str_contains", "dyn_float", "to_dyn", "let",
               "map_has", "seq_contains", "str_to_int", "int_to_str", "d_int", "d_float", "d_list", "d_chars", "d_is_int",
               "d_is_float", "d_is_list", "d_is_str", "d_is_dict", "d_is_none", "bitlen", "d_mk_list", "d_mk_str", "d_mk_float",
-              "d_mk_int", "d_mk_dict_empty", "d_set", "size", "d_absent", "fn_name", "effect_count", "effect_arg", "effect_recv", "effect_index", "world", "effect_result", "empty_options", "py_str"}
+              "d_mk_int", "d_mk_dict_empty", "d_set", "size", "d_absent", "fn_name", "effect_count", "effect_arg", "effect_recv", "effect_index", "world", "effect_result", "empty_options", "py_str", "d_ref"}
 
 
 class EvalMixin:
@@ -131,6 +131,12 @@ class EvalMixin:
         return self.getattr(st, v, n.attr, n.value)
 
     def getattr(self, st, v, name, loc=None):
+        if isinstance(v, DDList):
+            if name == "append":
+                if st.spec:
+                    raise OutsideSubset("mutation in a specification")
+                return Builtin("ddlist.append", self_val=v)
+            raise OutsideSubset(f"method {name} of a defaultdict entry list")
         if isinstance(v, Union):
             if st.spec:
                 return self.spec_map_union(st, v, lambda x: self.getattr(st, x, name, loc))
@@ -363,6 +369,10 @@ class EvalMixin:
             return self.comp_nested(st, n, kind)
         g = n.generators[0]
         it = self.force(st, self.ev(st, g.iter)) if not st.spec else self.ev(st, g.iter)
+        if isinstance(it, DDList):
+            it = self.dd_seq(st, it)
+        if isinstance(it, HeapRef) and st.obj(it).kind == "obj" and st.obj(it).cls == "defaultdict":
+            it = st.obj(it).fields["keys"]        # iterating a dict yields its keys in insertion order
         items = self.concrete_items(st, it)
         env = {"__parent__": st.frame.env}
         fr = Frame(env, st.frame.module, st.frame.qualname)
@@ -556,6 +566,22 @@ class EvalMixin:
     def index(self, st, c, k):
         if isinstance(c, Opaque):
             return Opaque(c.tag + "[]")
+        if isinstance(c, DDView):
+            f = const_str(k) if isinstance(k, Z) else None
+            if f is None or f not in st.obj(c.ref).fields or f == "keys":
+                raise OutsideSubset("record field of a defaultdict entry that is not a literal")
+            return DDList(c.ref, c.key, f)
+        if isinstance(c, DDList):
+            return self.index(st, self.dd_seq(st, c), k)
+        if isinstance(c, HeapRef) and st.obj(c).kind == "obj" and st.obj(c).cls == "defaultdict":
+            o = st.obj(c)
+            key = self.to_z(st, k, T("str"))
+            if not st.spec:
+                ks = o.fields["keys"].e      # first access inserts the key (insertion order is iteration order)
+                o.fields["keys"] = Z(o.fields["keys"].t, z3.If(z3.Contains(ks, z3.Unit(key.e)), ks, z3.Concat(ks, z3.Unit(key.e))))
+            return DDView(c, key)
+        if isinstance(c, Z) and c.t.kind == "smap":
+            return Z(T("seq", (T("dyn"),)), z3.Select(c.e, self.to_z(st, k, T("str")).e))
         if isinstance(c, Union):
             if st.spec:
                 return self.spec_map_union(st, c, lambda x: self.index(st, x, k))
@@ -808,6 +834,8 @@ class EvalMixin:
         raise OutsideSubset(f"`is` on {a!r}, {b!r}")
 
     def contains(self, st, c, x):
+        if isinstance(c, DDList):
+            return z3.Contains(self.dd_seq(st, c).e, z3.Unit(self.to_dyn(st, x)))
         if isinstance(c, Union):
             return z3.Or([z3.And(cc, self.contains(st, y, x)) for cc, y in c.alts])
         items = None
